@@ -29,14 +29,17 @@ from harness import lib_cm15 as c15
 PROPS = 'XsVerif.Props.C15'
 AUDIT = 'XsVerif.Audit.C15'
 LEAN_TARGETS = ['XsVerif.Props.C15', 'drv_c15']
-LEANCHECK = ['XsVerif.Model.Upa', 'XsVerif.Lemmas.Upa', 'XsVerif.Model.CheckModel', 'XsVerif.Props.C15']
+LEANCHECK = ['XsVerif.Model.Upa', 'XsVerif.Lemmas.Upa', 'XsVerif.Model.CheckModel', 'XsVerif.Lemmas.CheckModel',
+             'XsVerif.Lemmas.CheckModelFlat', 'XsVerif.Props.C15']
 RULE = ('case = (XSD version, content model). Models: the complete family with ≤2 leaves over {a,b}, sequence/choice '
         'nested to depth 2, occurrences from {1,?,*,{1,2}} (46k models per version, complete in the thorough tier, sampled '
-        'in the quick tier), seeded members of the same family with all of {1,?,*,+,{2,2},{1,2},{0,0}}, with a wildcard '
+        'in the quick tier), every choice{1,1} of ≤3 plain element references (the fragment of checkModel_refines_partial), '
+        'seeded members of the same family with all of {1,?,*,+,{2,2},{1,2},{0,0}}, with a wildcard '
         'leaf, and with 3 leaves, '
-        'all element/wildcard leaf pairs over 10 wildcard forms, an Element-Declarations-Consistent family with local '
+        'all pairs of leaves from {a, substitution head and members, 10 wildcard forms} in two-item sequences/choices, an Element-Declarations-Consistent family with local '
         'declarations and substitution-group members, seeded random larger models (depth ≤3, xs:all, substitution '
-        'heads incl. a transitive member, local declarations, wildcards). '
+        'heads incl. a transitive member, local declarations, wildcards), the same with nested groups turned into '
+        'references to named model groups, and models that reference one named group twice (shared particle objects). '
         'non-trivial = check_model reached the UPA stage for at least one pair of overlapping particles or raised '
         '(port trace non-empty or error; without Lean: some pair of leaves matches a common name); distinct by '
         'canonical JSON')
@@ -79,6 +82,8 @@ def known_match(case: Any, detail: Any) -> Optional[str]:
         ast = case.get('ast')
         if ast and ast[3] == 0 and not detail.get('impl_ok') and not ROOT_MAX0_FIX:
             return 'C15-F2'       # empty root group still checked (one-line repair proposed)
+        if detail.get('shared') and detail.get('impl_ok'):
+            return 'C15-F3'       # a particle object shared by two places of the model is never compared with itself
         return KNOWN_ID
     return KNOWN_ID if case.get('model') in pinned().get(case.get('v'), ()) else None
 
@@ -153,10 +158,12 @@ def run_batch(ctx: Ctx, drv: Optional[Driver], models: list[tuple], v11: bool, f
             ctx.count(f'{fam}:invalid-for-another-reason')
             continue
         intro = ob['intro']
-        if c15.ast_of_json(intro.json) != c15.skeleton(ast):
+        if c15.ast_of_json(intro.cjson) != c15.skeleton(ast):
             ctx.mismatch('parsed group differs from the declared model', {'model': c15.show(ast)},
-                         c15.ast_of_json(intro.json), c15.skeleton(ast))
+                         c15.ast_of_json(intro.cjson), c15.skeleton(ast))
             continue
+        if intro.shared:
+            ctx.count('shared-particle-objects')
         reqs.append(dict(intro.request(v11, FUEL), rootfix=ROOT_MAX0_FIX))
         pend.append((ast, ob))
     answers = drv.query(reqs) if drv is not None and reqs else [None] * len(reqs)
@@ -214,9 +221,14 @@ def run_batch(ctx: Ctx, drv: Optional[Driver], models: list[tuple], v11: bool, f
         # --- the property on the real code
         expected = det and ans['edc']
         ctx.count('impl_ok=%s/deterministic=%s/edc=%s' % (impl_ok, det, ans['edc']))
+        if fam == 'flat-choice' and (m['res'] == 'ok') != expected:
+            # theorem checkModel_refines_partial: on this fragment the port is exact; a disagreement means the
+            # introspected data do not satisfy the theorem's guard (serialisation / model drift)
+            ctx.mismatch('flat-choice fragment: port vs oracle contradicts checkModel_refines_partial', case,
+                         {'port': m['res']}, {'upa': o, 'edc': ans['edc']})
         if impl_ok != expected:
             detail = {'impl_ok': impl_ok, 'impl_error': ob['kind'], 'expected_ok': expected, 'upa': o, 'edc': ans['edc'],
-                      'port_ok': m['res'] == 'ok', 'port': m['res']}
+                      'port_ok': m['res'] == 'ok', 'port': m['res'], 'shared': ob['intro'].shared}
             fid = known_match(case, detail)
             if fid:
                 ctx.known_hit(fid)
@@ -230,22 +242,31 @@ def families(ctx: Ctx, with_driver: bool = True):
     deviations on the pinned tree are recorded in corpus/C15/pinned-deviations.json"""
     rng = ctx.rng
     core = c15.exh2_core()
+    flat = c15.flat_choices()
     occ3 = [(1, 1), (0, 1), (0, None), (2, 2), (1, 2)]
     edc = c15.edc_models()
     wit = json.loads((VERIF / 'corpus' / 'C15' / 'theorem-witnesses.json').read_text())['models']
     for v11 in (False, True):
         yield 'theorem-witnesses', v11, [tup(m['ast']) for m in wit if ('1.1' if v11 else '1.0') in m['versions']]
         yield 'exh2-core', v11, (rng.sample(core, 2000) if ctx.quick() else core)
+        yield 'flat-choice', v11, (rng.sample(flat, 800) if ctx.quick() else flat)
         wm = c15.wildcard_models(v11)
-        yield 'wildcard-pairs', v11, (rng.sample(wm, min(len(wm), 600)) if ctx.quick() else wm)
+        yield 'leaf-pairs', v11, (rng.sample(wm, min(len(wm), 600)) if ctx.quick() else wm)
         yield 'edc', v11, edc
         if not with_driver:
             continue
         yield 'exh2-allocc', v11, [c15.small_random(rng, rng.choice([1, 2, 2, 2]), ['a', 'b'], cm.OCC_SMALL)
-                                   for _ in range(ctx.pick(1000, 20000))]
+                                   for _ in range(ctx.pick(1000, 15000))]
         yield 'exh2-any', v11, [c15.small_random(rng, 2, ['a'], cm.OCC_SMALL, any_p=0.5) for _ in range(ctx.pick(800, 15000))]
-        yield 'exh3-sample', v11, [c15.small_random(rng, 3, ['a', 'b'], occ3) for _ in range(ctx.pick(2000, 40000))]
-        yield 'random', v11, [c15.random_model(rng, v11) for _ in range(ctx.pick(2000, 40000))]
+        yield 'exh3-sample', v11, [c15.small_random(rng, 3, ['a', 'b'], occ3) for _ in range(ctx.pick(2000, 30000))]
+        yield 'random', v11, [c15.random_model(rng, v11) for _ in range(ctx.pick(2000, 30000))]
+        refs = []
+        while len(refs) < ctx.pick(1000, 15000):
+            m = c15.with_refs(rng, c15.random_model(rng, v11, max_depth=3), 0.6)
+            if c15.has_refs(m):
+                refs.append(m)
+        yield 'group-refs', v11, refs
+        yield 'shared-group-refs', v11, [c15.shared_ref_model(rng, v11) for _ in range(ctx.pick(500, 6000))]
 
 
 def have_driver() -> bool:
@@ -271,7 +292,7 @@ def run(ctx: Ctx, driver_ok: bool) -> None:
                 return
     if not ctx.quick() and drv is not None:
         ctx.extra['exhaustive'] = True
-        ctx.extra['exhaustive_scope'] = 'exh2-core, wildcard-pairs and edc families are complete; the others are sampled'
+        ctx.extra['exhaustive_scope'] = 'exh2-core, flat-choice, leaf-pairs and edc families are complete; the others are sampled'
 
 
 def search(ctx: Ctx) -> None:
